@@ -55,6 +55,8 @@ for pid in sorted(seeds):
         first = 'yes' if cr.get('detected') else 'NO'
         now = 'yes' if d.get("detected_now", cr.get("detected")) else 'NO'
         note = ""
+        if d.get("obsolete_on_head"):
+            now = now + " (patch obsolete on HEAD since " + d["obsolete_on_head"].get("since", "?") + ": the changed code was replaced by a later fix)"
         if d.get("rechecks"):
             note = " (" + short(d["rechecks"][-1].get("note", ""), 90) + ")"
         rows.append(f"| seeded/{name} | {pid} | {short(d.get('summary',''),160)} | {short(d.get('needs',''),120)} | {first} | {now}{note} | {by or '–'} |")
